@@ -68,3 +68,53 @@ def none_test(t: Term) -> Optional[Tuple[Term, bool]]:
         if inner:
             return (inner[0], not inner[1])
     return None
+
+
+def search_tests(ev, guards) -> List[Tuple[Term, Term, Term]]:
+    """Searches among the guards of a path that found something: [(iterable, element symbol, condition on the element)]
+    for `any(c(x) for x in it)`, `any(map(f, it))`, `next(filter(f, it), None) is not None` and
+    `next((x for x in it if c(x)), None) is not None` taken on the side where an element exists."""
+    from .terms import Lam, FuncRef, _State
+
+    def mk_and(ts):
+        ts = tuple(ts)
+        return ts[0] if len(ts) == 1 else Op('and', ts)
+    out: List[Tuple[Term, Term, Term]] = []
+
+    def applied(f: Term, each: Term) -> Optional[Term]:
+        if isinstance(f, (Lam, FuncRef, BoundMethod)):
+            st = _State()
+            return ev.apply(f, (each,), (), st, 0)
+        return None
+
+    def source(src: Term) -> Optional[Tuple[Term, Term, Term]]:
+        if isinstance(src, Comp) and len(src.gens) == 1:
+            tgt, it, ifs = src.gens[0]
+            each = Sym(f'each:{tgt}')
+            return it, each, (ifs, src.elt)
+        if isinstance(src, Call) and isinstance(src.func, Ext) and src.func.name in ('filter', 'map') and len(src.args) == 2:
+            each = Sym('each:<item>')
+            c = applied(src.args[0], each)
+            if c is not None:
+                return src.args[1], each, ((c,), each) if src.func.name == 'filter' else ((), c)
+        return None
+
+    for t, pol in guards:
+        neg = False
+        while isinstance(t, Op) and t.op == 'not' and len(t.args) == 1:
+            t, neg = t.args[0], not neg
+        pol2 = pol != neg
+        if isinstance(t, Call) and isinstance(t.func, Ext) and t.func.name == 'any' and len(t.args) == 1 and pol2:
+            s = source(t.args[0])
+            if s:
+                it, each, (ifs, elt) = s
+                out.append((it, each, mk_and(tuple(ifs) + (elt,))))
+            continue
+        nt = none_test(t)
+        if nt and isinstance(nt[0], Call) and isinstance(nt[0].func, Ext) and nt[0].func.name == 'next' and len(nt[0].args) == 2 and nt[0].args[1] == Const(None) \
+                and (nt[1] != pol2):
+            s = source(nt[0].args[0])
+            if s:
+                it, each, (ifs, elt) = s
+                out.append((it, each, mk_and(tuple(ifs))))
+    return out
